@@ -265,12 +265,12 @@ class World(object):
 
     nworlds = 0
 
-    def __init__(self, backend, path, tiles):
+    def __init__(self, backend, path, tiles, tz=None):
         import webtest
         # every other world lives in a time zone west of Greenwich (fixed offset, no daylight saving): HTTP dates are GMT,
         # whatever reads them as local time is wrong by hours there
         World.nworlds += 1
-        self.tz = 'EST5' if World.nworlds % 2 else 'UTC'
+        self.tz = tz or ('EST5' if World.nworlds % 2 else 'UTC')
         os.environ['TZ'] = self.tz
         _real_time.tzset()
         from mapproxy.config.loader import ProxyConfiguration
@@ -974,6 +974,50 @@ def model_phase(ctx, flags_by):
         ctx.add_tlc('HttpCond/%s/%s' % (backend, path), r)
 
 
+def dst_case(ctx):
+    """A tile rewritten in the hour that local time repeats when daylight saving time ends (server zone given as a POSIX TZ
+    string; the C library primed as in a server that has been running through the summer): version A is written at 02:50
+    summer time, version B twenty minutes later at 02:10 winter time.  Last-Modified moves forward with the rewrite, and a
+    client that revalidates with the validators of A gets B."""
+    global T0
+    from engine import zone as Z
+    first_0250 = 1572137400                     # 2019-10-27T00:50:00Z = 02:50 CEST
+    saved = T0
+    try:
+        with Z.zone(Z.DST):
+            lt = _real_time.localtime(first_0250)
+            if (lt.tm_hour, lt.tm_min, lt.tm_isdst) != (2, 50, 1) or _real_time.localtime(first_0250 + 1200).tm_isdst != 0:
+                raise tlc.MachineryError('the C library does not know the zone %s' % Z.DST)
+            for backend in BACKENDS:
+                for flavour in ('tms', 'wmts_kvp', 'wmsc'):
+                    _real_time.mktime(_real_time.localtime(first_0250 - 6 * 3600))
+                    T0 = first_0250 - 1                 # the world starts at clock 2 = T0 + 1 s
+                    w = World(backend, 'single', ['t1', 't2'], tz=Z.DST)
+                    try:
+                        a = w.get(flavour, 't1')
+                        a2 = w.get(flavour, 't1')
+                        w.clock += 2400                  # twenty minutes
+                        w.rewrite('t1', 2)
+                        b = w.get(flavour, 't1', inm=a2['etag'], ims=http_date(a2['lm']) if a2['lm'] >= 0 else None)
+                    finally:
+                        w.close()
+                    ctx.count(('dst', backend, flavour))
+                    if a['up'] != 'ok' or a2['status'] != 200 or a2['etag'] is None:
+                        raise tlc.MachineryError('dst case: %s %s did not create and serve the tile: %r %r' % (backend, flavour, a, a2))
+                    bad = []
+                    if b['status'] != 200 or b['body'] != 2:
+                        bad.append('answered %d with content version %s (the tile as stored now is version 2)' % (b['status'], b['body']))
+                    if not (b['lm'] > a2['lm']) and b['status'] == 200:
+                        bad.append('Last-Modified went from second %d to second %d' % (a2['lm'], b['lm']))
+                    if bad:
+                        ctx.violation({'kind': 'dst-repeated-hour', 'backend': backend, 'flavour': flavour},
+                                      '%s cache, %s, server zone %s: tile written at 02:50 summer time (2019-10-27T00:50:01Z), rewritten '
+                                      'at 02:10 winter time (01:10Z), revalidated with the validators of the first version: %s' % (
+                                          backend, flavour, Z.DST, '; '.join(bad)), {'kind': 'dst', 'backend': backend, 'flavour': flavour})
+    finally:
+        T0 = saved
+
+
 def run(ctx):
     thorough = ctx.tier == 'thorough'
     install()
@@ -987,6 +1031,7 @@ def run(ctx):
     ctx.log('replayed %d behaviours (%d steps)' % (ctx.cov['replayed_behaviours'], ctx.cov['replayed_steps']))
     trace_phase(ctx, flags_by, ntraces=20 if thorough else 4, nsteps=200 if thorough else 70)
     ctx.log('validated %d recorded histories' % ctx.cov['traces_validated_against_impl'])
+    dst_case(ctx)
     ctx.assumptions += [
         'time has half-second resolution in the model; a tile is not rewritten twice within one stored time unit '
         '(second for sqlite), where (mtime, size) validators cannot tell the versions apart',
